@@ -37,7 +37,7 @@ def cases_batches(tier):
     labels = [l for l, _ in B.ENTRIES] if tier == "thorough" else B.QUICK_ENTRIES
     maxlen = 3 if tier == "thorough" else 2
     ws = worlds(tier, jsonclass=(True,), dispatches=("default", "custom-ok", "custom-raise"))
-    ws += [(2.0, True, "default", "dispatching"), (1.0, True, "default", "plain")]
+    ws += [(2.0, True, "default", "dispatching"), (1.0, True, "default", "plain"), (2, True, "default", None), (1, False, "custom-ok", None)]
     for t in B.TOPLEVEL:
         for w in ws:
             yield (w, B.dumps(t))
@@ -257,12 +257,17 @@ def leg_http(part, tier, shard, nshards):
     drive(part, "http", cases_http(tier), shard, nshards, check_http)
 
 
+def cases_scale(tier):
+    return sc.scale_cases(tier, [(2.0, True, "default", None), (1.0, False, "custom-ok", None), (2, True, "custom-raise", None), (2.0, True, "default", "dispatching")])
+
+
 LEGS = {
     "objects": leg("objects", cases_objects),
     "batches": leg("batches", cases_batches),
     "corrupt": leg("corrupt", cases_corrupt),
     "jsonclass": leg("jsonclass", cases_jsonclass),
     "http": leg_http,
+    "scale": leg("scale", cases_scale),
 }
 
 META = {
@@ -271,7 +276,9 @@ META = {
     "batch of length <=2 (quick: 12-entry alphabet) / <=3 (thorough: 24 entries); corrupt: every truncation and every single-character "
     "deletion/substitution/insertion over a 14-character alphabet of 6 (quick) / 12 (thorough) seed requests plus 60 non-JSON texts; "
     "jsonclass: 29 descriptor shapes x 16 placements; http: every 7th (quick) / 2nd (thorough) of those bodies through do_POST; "
-    "x server version {1.0,2.0} x translation on/off x default/custom dispatch. A case is non-trivial when it is inside the property's "
+    "scale: one body per size dimension beyond the small scope - batches of 1001/1025/2500 (thorough up to 20000) calls, notifications, mixed and failing "
+    "entries, parameters and ids nested 25/60/150 (thorough 300) deep, strings/parameter lists/method names/ids/member sets of those lengths; "
+    "x server version {1.0,2.0, and the integers 1, 2} x translation on/off x default/custom dispatch. A case is non-trivial when it is inside the property's "
     "domain (bodies with NaN/Infinity literals or overflowing numbers are counted as trivial and not judged)",
     "bounds": {"quick": {"batch_len": 2, "seeds": 6}, "thorough": {"batch_len": 3, "seeds": 12, "double_corruptions_of_shortest": 3}},
     "assumptions": [
